@@ -208,7 +208,7 @@ Plan gen_chaos(Rng &r, bool thorough) {
         else if (c < 53) { Frame f; for (int j = 0; j < 8; j++) f.d[j] = r.byte(); o = Op("rx", {r.chance(1, 10) ? (int64_t)(r.next() & 0x1FFFFFFF) : (int64_t)r.below(0x800), (int64_t)r.pick<int>({8, 8, 0, 1, 7, 9, 15}), 1}, std::vector<uint8_t>(f.d, f.d + 8)); }
         else if (c < 66) o = Op("tick", {r.pick<int64_t>({1, 1, 1, 2, 5, 10, 11, 50, 1000})});
         else if (c < 70) o = Op(strict ? "tick" : "process", {1});
-        else if (c < 88 && r.chance(1, 8)) o = Op("cbapi", {(int64_t)r.below(30), (int64_t)r.next() & 0xFFFFFF, (int64_t)r.below(256), (int64_t)(r.next() & 0xFFFFFFFF), (int64_t)r.below(7)});
+        else if (c < 88 && r.chance(1, 8)) o = Op("cbapi", {r.chance(1, 3) ? r.pick<int64_t>({15, 15, 14, 24, 10}) : (int64_t)r.below(30), (int64_t)r.next() & 0xFFFFFF, (int64_t)r.below(256), (int64_t)(r.next() & 0xFFFFFFFF), (int64_t)r.below(7)});
         else if (c < 88) o = Op("api", {(int64_t)r.below(30), (int64_t)r.next() & 0xFFFFFF, (int64_t)r.below(256), (int64_t)(r.chance(1, 2) ? r.next() & 0xFFFFFFFF : r.pick<int64_t>({0, 1, 0x65766173, 0x64616F6C, 0x80000000ll, 255, 256, 4000, 4001}))});
         else if (c < 90) o = Op("sendfail", {r.range(1, 5)});
         else if (c < 92) o = Op("readerr", {r.range(1, 3), (int64_t)r.below(2)});
